@@ -1140,6 +1140,12 @@ class Interp:
             self.ctx.assumptions_used.add("record:element of an opaque sequence (decoded response) exists at the index used")
             f = z3.Function(f"item_{idx}".replace("-", "m"), OpaqueSort, OpaqueSort)
             return Opaque(f(obj.t), "opaque")
+        if isinstance(obj, Opaque) and isinstance(idx, str):
+            # entry of a mapping the analysis knows nothing about (the validated configuration) under a concrete
+            # string key: an uninterpreted function of the mapping; assumed: the key is present
+            self.ctx.assumptions_used.add("record:entry of an opaque mapping (validated configuration) exists under the key used")
+            f = z3.Function("entry_" + "".join(ch if ch.isalnum() else "_" for ch in idx), OpaqueSort, OpaqueSort)
+            return Opaque(f(obj.t), "opaque")
         if isinstance(obj, Sym):
             raise Unsupported(f"subscript of {type(obj).__name__}")
         if isinstance(idx, slice) and _has_sym((idx.start, idx.stop)):
@@ -1828,7 +1834,37 @@ class Interp:
         raise Unsupported("class definition inside function")
 
     def s_Delete(self, node, env):
-        raise Unsupported("del")
+        # `del m[k]` on a mapping is `m.pop(k)` with the result dropped (KeyError when absent -- the same model the
+        # method call uses); `del l[i]` on a python list with a concrete index / slice is done on the list;
+        # `del name` unbinds a local.  Anything else stays outside the subset.
+        for tgt in node.targets:
+            if isinstance(tgt, ast.Subscript):
+                obj = self.eval(tgt.value, env)
+                idx = self.eval_index(tgt.slice, env)
+                if isinstance(obj, (list, bytearray)):
+                    if isinstance(idx, slice):
+                        if not all(x is None or isinstance(x, int) for x in (idx.start, idx.stop, idx.step)):
+                            raise Unsupported("del of a list slice with symbolic bounds")
+                        del obj[idx]
+                        continue
+                    ci = idx if isinstance(idx, int) and not isinstance(idx, bool) else None
+                    if ci is None:
+                        raise Unsupported("del of a list element at a symbolic index")
+                    if not -len(obj) <= ci < len(obj):
+                        raise PyRaise(mk_exc(IndexError, "list assignment index out of range"))
+                    del obj[ci]
+                    continue
+                if isinstance(idx, slice):
+                    raise Unsupported("del of a slice of a non-list")
+                popm = self.getattr(obj, "pop")
+                self.call(popm, [idx], {}, node=node)
+                continue
+            if isinstance(tgt, ast.Name):
+                if tgt.id not in env.vars:
+                    raise Unsupported("del of a name that is not a local of the innermost scope")
+                del env.vars[tgt.id]
+                continue
+            raise Unsupported("del of " + type(tgt).__name__)
 
     def s_While(self, node, env):
         if self.loop_handler is not None:
